@@ -60,6 +60,7 @@ def conn_spec(r, nreq, allow_slow=True):
     if r.random() < 0.4: opts.append('f%d' % r.randint(1, 7))
     if r.random() < 0.15: opts.append('l%d' % r.randint(1, 3))
     if r.random() < 0.15: opts.append('b%d' % r.choice([8, 16, 33, 64]))
+    if r.random() < 0.15: opts.append('q%d' % r.randint(0, 3))
     return ','.join(['c'] + opts)
 
 
@@ -76,6 +77,7 @@ def gen_random(chk, n):
         script = []
         ids = list(range(1, nreq + 1))
         if mode == 's' and r.random() < 0.6: script.append('F%d' % r.randint(1, 40))
+        if r.random() < 0.08: script.append('P%d' % r.choice([3000, 9000]))
         j = 0
         while j < len(ids):
             if mode == 'c' and r.random() < 0.2 and j + 1 < len(ids):
@@ -121,6 +123,27 @@ def gen_break_positions(maxn, strategies):
                 cases.append('pipe %s 1 c 3000 2500 1024 %s / %s' % (strat, script, sp))
             for k in range(0, n + 1):
                 cases.append('pipe %s 1 c 3000 2500 1024 %s / c,x%d,d3*' % (strat, script, k))
+    return cases
+
+
+def gen_backpressure(strategies, maxn=6):
+    """write-side back pressure while requests are still waiting to be written: the sink reports Pending once after k accepted
+       packets (k = 0..3) with a pipeline of 3..maxn requests arriving in one poll, and real back pressure: payloads above the
+       8 KB boundary of the framed write buffer into a tiny duplex pipe.  A Pending from poll_ready must leave the queue untouched."""
+    cases = []
+    for strat in strategies:
+        for n in range(3, maxn + 1):
+            script = ' '.join('s%d' % i for i in range(1, n + 1))
+            for k in range(0, 4):
+                cases.append('pipe %s 1 c 3000 2500 1024 %s / c,q%d' % (strat, script, k))
+            cases.append('pipe %s 1 c 3000 2500 1024 %s / c,q1,f3' % (strat, script))
+            cases.append('pipe %s 1 c 3000 2500 1024 s1 m2,3,4 %s / c,q2' % (strat, ' '.join('s%d' % i for i in range(5, n + 3))))
+            cases.append('pipe %s 1 c 3000 2500 1024 %s / c,x2,q1 c,q1' % (strat, script))
+            for pad, buf in ((9000, 64), (5000, 128), (9000, 4096)):
+                cases.append('pipe %s 1 c 3000 2500 1024 P%d %s / c,b%d' % (strat, pad, script, buf))
+        cases.append('pipe %s 2 c 3000 2500 64 P9000 s1 s2 s3 s4 s5 s6 s7 s8 / c,b64 / c,b128,q1' % strat)
+        cases.append('pipe %s 1 s 3000 2500 1024 P9000 F4096 s1 s2 s3 s4 s5 / c,b64' % strat)
+        cases.append('pipe %s 1 s 3000 2500 1024 s1 s2 s3 s4 s5 / c,q1' % strat)
     return cases
 
 
@@ -271,7 +294,7 @@ def run(chk):
     ok = vlib.standard_proof_phase(chk, TRUSTED, 'pipe')
     chk.cov['rule'] = ('case = (batching strategy, 1..3 backend nodes, request script with simple/Multi tasks, yields and sleeps, per-node list of scripted '
                        'connections: close after k requests, mid-reply break at a byte offset, non-RESP bytes, stall, refuse, injected write error, reply '
-                       'fragmentation, latency, tiny pipe buffers) through the real sender/backend stack (mode c) or the real handle_session over loopback TCP '
+                       'fragmentation, latency, tiny pipe buffers, write-side back pressure: a scripted Pending from the sink\'s poll_ready and > 8 KB payloads into tiny pipes) through the real sender/backend stack (mode c) or the real handle_session over loopback TCP '
                        '(mode s); non-trivial = distinct case in which at least one connection ended with an error/EOF/timeout or a connect was refused '
                        '(so retry / cancel / error paths ran), or a ReqTask::set_result fan-out case')
     if not ok:
@@ -279,6 +302,7 @@ def run(chk):
     quick = chk.tier == 'quick'
     cases = list(CORPUS)
     cases += gen_break_positions(3 if quick else 8, 'dfy' if quick else 'dfy')
+    cases += gen_backpressure('dfy', 6 if quick else 8)
     cases += gen_random(chk, 500 if quick else 12000)
     rc1, impl = chk.run_impl('pipe', cases, timeout=3000, jobs=8)
     if len(impl) != len(cases):
